@@ -110,7 +110,7 @@ theorem tblF_names (ms : List Macro) : (tblF ms).map (·.name) = ms.map (·.name
 
 /-- `expand` on a token that starts no invocation either leaves the potential alone (token
 delivered) or trades the token's weight for one unit less (token replaced) -/
-theorem expand_potP (ms0 : List Macro) (hT : TblOK ms0) (n : Nat) (st sx : St) (t : Tok) (g : GoodP ms0 st)
+theorem expand_potP (ms0 : List Macro) (hT : TblOKS ms0) (n : Nat) (st sx : St) (t : Tok) (g : GoodP ms0 st)
     (ht : FlatP ms0 t) (h : exec n (.expand t) st = .ok sx) :
     (sx.rb = false ∧ potW ms0 sx = potW ms0 st) ∨
     (sx.rb = true ∧ potW ms0 sx + 1 = W (tblF ms0) (liveNames st.ctx) t + potW ms0 st) := by
